@@ -1,4 +1,84 @@
 import FqModel.Proto
-/-! driver for C07 (stub — replaced by the property's own driver) -/
-open FqModel.Proto
-def main : IO Unit := run (fun _ _ => "BADOP driver-stub")
+import FqModel.JqEnv
+import FqModel.Gen.Overrides
+/-!
+  Driver for C07, run `facts` (harness c07 -facts): the harness derives the override table a second time —
+  embedded file systems of the running binary in their real load order, the gojq PARSER, "is a builtin" decided
+  by compiling a call with the reference engine — and every line is compared here with the regenerated
+  Lean table FqModel/Gen/Overrides.lean (written by the text scanner /verif/extract/c07overrides):
+
+    ov <name>/<arity> <file> TAB other | guarded <helper>
+        DIVERGE  the table has no such entry, or another shape (scanner and parser disagree)
+        PROPFAIL the harness's own observation violates the property predicate: the definition shadows a builtin,
+                 is not guarded and is not on the justified list JqEnv.reimplemented (evaluated on the
+                 observation alone, independent of the table)
+    count TAB n                          n = number of `ov` lines = length of the table
+    helper <name> TAB ok | …             shape of the guard helpers
+    dynamic TAB f1,f2,…                  the dynamic includes
+    gofn TAB [..]                        Go-registered fq functions that collide with a builtin (none)
+
+  The differential cases of the other run are decided by the harness itself (`!OK` / `!PROPFAIL` lines).
+-/
+open FqModel FqModel.Proto FqModel.JqEnv
+open FqModel.Gen.Overrides
+
+/-- registry files are known to the running binary by base name only -/
+def normFile (f : String) : String :=
+  if f.startsWith "format/" then
+    match (f.splitOn "/").getLast? with
+    | some b => "format/*/" ++ b
+    | none => f
+  else f
+
+def shapeText : Shape → String
+  | .guarded h => "guarded " ++ h
+  | .other => "other"
+
+def parseFn (s : String) : Option (String × Nat) :=
+  match s.splitOn "/" with
+  | [n, a] => a.toNat?.map (fun k => (n, k))
+  | _ => none
+
+def step (seen : Nat) (op obs : String) : Nat × String :=
+  match words op with
+  | ["ov", fn, file] =>
+    match parseFn fn with
+    | none => (seen, "BADOP name/arity")
+    | some (n, k) =>
+      if obs != "other" && !(obs.startsWith "guarded ") then (seen, "BADOP shape") else
+      -- the property predicate on the observation alone
+      let guardedObs := obs == "guarded _binary_or_orig" || obs == "guarded _bytes_or_orig"
+      let prop := guardedObs || reimplemented.contains (n, k)
+      let m := overrides.filter (fun o => o.name == n && o.arity == k && normFile o.file == file)
+      let corr :=
+        match m with
+        | [o] => if shapeText o.shape == obs then "" else s!"DIVERGE model={shapeText o.shape}"
+        | [] => "DIVERGE model=absent-from-Gen.overrides"
+        | _ => "DIVERGE model=duplicate-in-Gen.overrides"
+      if !prop then
+        (seen + 1, s!"PROPFAIL {fn} in {file} shadows a gojq builtin, is not guarded ({obs}) and is not a listed re-implementation"
+          ++ (if corr == "" then "" else " ;" ++ corr))
+      else (seen + 1, if corr == "" then "OK" else corr)
+  | ["count"] =>
+    match obs.toNat? with
+    | none => (seen, "BADOP count")
+    | some n =>
+      if n == overrides.length && n == seen then (seen, "OK")
+      else (seen, s!"DIVERGE model={overrides.length} entries in Gen.overrides, {seen} ov lines seen")
+  | ["helper", h] =>
+    let m := if h == "_binary_or_orig" then some binaryOrOrigOk else if h == "_bytes_or_orig" then some bytesOrOrigOk else none
+    match m with
+    | none => (seen, "BADOP helper")
+    | some ok =>
+      if obs != "ok" then
+        (seen, s!"PROPFAIL guard helper {h} does not have the guard shape: {obs}" ++ (if ok then " ;DIVERGE model=ok" else ""))
+      else if ok then (seen, "OK") else (seen, "DIVERGE model=not-ok")
+  | ["dynamic"] =>
+    let want := ",".intercalate (dynamicIncludes.toArray.qsort (· < ·)).toList
+    (seen, verdict want obs)
+  | ["gofn"] =>
+    if obs == "[]" then (seen, "OK")
+    else (seen, s!"DIVERGE model=[] (a Go-registered function has the name/arity of a builtin: {obs})")
+  | _ => (seen, "BADOP unknown op")
+
+def main : IO Unit := runSt 0 step
